@@ -5,22 +5,21 @@ cd "$(dirname "$0")"
 export CARGO_NET_OFFLINE=true
 echo "[setup] rs2v"
 (cd rs2v && cargo build --offline 2>&1 | tail -2)
-if [ -f harness/Cargo.toml ]; then
-  echo "[setup] harness"
-  python3 vlib/setup_harness.py || true
-fi
-echo "[setup] translate + coq"
+echo "[setup] translate + coq + harness + model driver"
 python3 - <<'PY'
 import sys, os
 sys.path.insert(0, "vlib")
-import coqstage
+import coqstage, hrun, model
 r = coqstage.translate()
 print(r["log"])
-if not r["ok"]:
-    sys.exit(0)   # the checks will report it
-import re
-targets = [l.strip()[:-2] + ".vo" for l in open("coq/_CoqProject") if l.strip().endswith(".v")]
-b = coqstage.build(targets, timeout=3000)
-print("coq build ok" if b["ok"] else "coq build FAILED:\n" + b["log"][-3000:])
+if r["ok"]:
+    targets = [l.strip()[:-2] + ".vo" for l in open("coq/_CoqProject") if l.strip().endswith(".v")]
+    b = coqstage.build(targets, timeout=3000)
+    print("coq build ok (%ss)" % b.get("wall_s") if b["ok"] else "coq build FAILED:\n" + b["log"][-3000:])
+for prof in ("d", "r"):
+    b, log = hrun.build(prof)
+    print("harness", prof, "ok" if b else "FAILED:\n" + log[-2000:])
+mb, info = model.build()
+print("model driver", "ok" if mb else "FAILED")
 PY
 echo "[setup] done"
